@@ -1,6 +1,6 @@
 (* SchedTheorems.v — the statements of property C16 on the model, for EVERY program set accepted by the discipline
    check, every configuration, any number of workers with any scripts, and EVERY schedule (any list of thread ids). *)
-From PG Require Import Common.Tactics Model.Sched Model.SchedDisc Proofs.SchedBase Proofs.SchedMutex Proofs.SchedSound Proofs.SchedSound2 Proofs.SchedSound3 Proofs.SchedSound4 Proofs.SchedSound5.
+From PG Require Import Common.Tactics Model.Sched Model.SchedDisc Proofs.SchedBase Proofs.SchedMutex Proofs.SchedSound Proofs.SchedSound2 Proofs.SchedSound3 Proofs.SchedSound4 Proofs.SchedSound5 Proofs.SchedLive.
 
 Lemma sumz_zero : forall f ts, (forall th, In th ts -> f th = 0%Z) -> sumz f ts = 0%Z.
 Proof. induction ts; simpl; intros; auto. rewrite H, IHts; auto. Qed.
@@ -349,5 +349,12 @@ Proof.
     + pose proof (gi_fed _ _ _ G1 _ _ A) as Hf. destruct (t_done x); auto. simpl in Hf. lia.
     + pose proof (gi_fed _ _ _ G1 _ _ A) as Hf. destruct (t_inf x); auto. rewrite andb_false_r in Hf. lia.
 Qed.
+
+(* C16, no deadlock: in EVERY reachable state in which some worker has not finished its script, some worker can take a step
+   ([step1 … t = None] means thread t is finished or blocked on a lock) *)
+Theorem no_deadlock : forall ws sched,
+  let st := run ps c (init_state c ws) sched in
+  finished (snd st) = false -> exists t, step1 ps c (fst st) (snd st) t <> None.
+Proof. intros ws sched st Hfin. apply (some_can_step ps c HD); auto. apply Inv_run. Qed.
 
 End Theorems.
